@@ -61,6 +61,7 @@ fn main() {
             "C13" => checks::c13::replay(&v),
             "C14" => checks::c14::replay(&v),
             "C15" => checks::c15::replay(&v),
+            "C16" => checks::c16::replay(&v),
             "C09" => checks::c09::replay(&v),
             "C11" => checks::c11::replay(&v),
             _ => {
@@ -89,6 +90,7 @@ fn main() {
         "C13" => checks::c13::run(tier, seed),
         "C14" => checks::c14::run(tier, seed),
         "C15" => checks::c15::run(tier, seed),
+        "C16" => checks::c16::run(tier, seed),
         "C09" => checks::c09::run(tier, seed),
         "C11" => checks::c11::run(tier, seed),
         _ => usage(),
